@@ -2,7 +2,7 @@
    Model: Model/VConstraint.v.  Proofs: Proofs/RangeSpec.v, RangeAlg.v, RangeOps.v, UnionHull.v, UnionExact.v. *)
 From Coq Require Import List Bool NArith String.
 From PC Require Import Base.Cmp Base.Result Model.Pep440 Spec.Pep440Spec Model.VConstraint
-     Proofs.VersionFacts Proofs.RangeSpec Proofs.RangeAlg Proofs.RangeOps Proofs.UnionHull Proofs.UnionExact Proofs.Contain Proofs.InterExact Proofs.DiffExact Proofs.DiffUnion Proofs.UnionTotalGood Proofs.DiffTotal Proofs.InterTotal Model.VHyp Proofs.SortedOrder Proofs.UnionSorted Proofs.Closure.
+     Proofs.VersionFacts Proofs.RangeSpec Proofs.RangeAlg Proofs.RangeOps Proofs.UnionHull Proofs.UnionExact Proofs.Contain Proofs.InterExact Proofs.DiffExact Proofs.DiffUnion Proofs.UnionTotalGood Proofs.DiffTotal Proofs.InterTotal Model.VHyp Proofs.SortedOrder Proofs.UnionSorted Proofs.Closure Proofs.ExprTotal.
 From PC Require Import Gen.RangeCmp Proofs.GenAgreeRange.
 Import ListNotations.
 
@@ -231,3 +231,10 @@ Example C05_expression_example :
   mutual ex_B /\ leaves_in ex_B ex_e /\
   match ceval ex_e with Ok c => vc_str c | Err e => Err e end = Ok ">=1.0,<1.5 || >=2.0,<=3.0 || >3.5,<=4.0 || >5.0"%string.
 Proof. exact (conj ex_mutual (conj ex_leaves ex_eval)). Qed.
+
+(* ... and every such expression IS defined (Proofs/ExprTotal.v): together with C05_every_expression, any history of operations over the
+   class returns a constraint of the class that admits exactly what the history means; [inK'] adds that a union has members (true of
+   everything the parser and the operations return) *)
+Theorem C05_every_expression_defined : forall B, mutual B -> forall e, leaves_in' B e -> exists c, ceval e = Ok c /\ inK' B c.
+Proof. exact expr_total. Qed.
+Print Assumptions C05_every_expression_defined.
